@@ -164,9 +164,14 @@ pub fn all() -> Vec<Prop> {
         Prop {
             id: "C17",
             level: "exploration",
-            rule: "one evaluation = one generated task-tree program (main/background, async/blocking tasks, tasks spawning tasks, joins, nested run!/run_blocking! scopes, cancel(), errors, panics, scope timeouts, caller deadline) on the real scope::run! / run_blocking! under a seeded schedule (blocking tasks are OS threads holding a baton, preempted inside Once::send, set_err and run_blocking); oracle over the start/end/resolved/active event log vs. the scope's return; a worker taken down by a signal (use-after-return of the scope's frame) counts as a violation; non-trivial = at least 2 tasks; distinct = distinct event-log fingerprint",
-            batches: |t| prim_batches("scopes", 24000, 600_000, t),
-            expected_probes: || vec!["nested_scope", "several_failures", "task_panicked", "blocking_task", "blocking_top_scope"],
+            rule: "one evaluation = one generated task-tree program (main/background, async/blocking tasks, tasks spawning tasks, joins, nested run!/run_blocking! scopes, cancel(), errors, panics, scope timeouts, caller deadline) on the real scope::run! / run_blocking! under a seeded schedule (blocking tasks are OS threads holding a baton, preempted inside Once::send, set_err and run_blocking); oracle over the start/end/resolved/active event log vs. the scope's return; a worker taken down by a signal (use-after-return of the scope's frame) counts as a violation; non-trivial = at least 2 tasks; distinct = distinct event-log fingerprint. Population prim/abandon (must-complete half): a scope with a root task and 1-3 background tasks that need 4-40 steps to wind down; in 70 % of the runs the harness drops the future of scope::run! 1-3 steps after the root finished while background tasks still run - the expected outcome, known from the seed, is that the simulation process (a forked child) dies with SIGABRT; surviving the drop with a task of the scope still running is the violation; control runs await the future to the end (an abort there is a violation like anywhere else)",
+            batches: |t| {
+                let mut b = prim_batches("scopes", 24000, 600_000, t);
+                // Must-complete half: the caller drops the scope's future while tasks of the scope run.
+                b.extend(prim_batches("abandon", 600, 20_000, t));
+                b
+            },
+            expected_probes: || vec!["nested_scope", "several_failures", "task_panicked", "blocking_task", "blocking_top_scope", "abandoned_scope_aborted_the_process", "scope_awaited_to_the_end"],
             components: prim_components,
             assumptions: || {
                 let mut a = prim_assumptions();
